@@ -1,5 +1,6 @@
 """C02 — SSC simfile: serialize -> parse round trip at parameter level, object identity nondeterministic (CrossHair harness)."""
 import xhlib
+from xhlib import L1, L2, L3, L4
 from xhlib import REC, StubParam, record, params, gaps_blank, SSC_KEYS
 from simfile.ssc import SSCSimfile, SSCChart
 
@@ -83,7 +84,7 @@ def chart3(npos: int, nk: bool, k0: int, v0: str, v1: str, notes: str, a0: bool,
     """
     pre: 0 <= npos <= 2 and 0 <= k0 < len(CHART_KEYS)
     pre: CHART_KEYS[k0] not in MULTI and CHART_KEYS[k0] != "ZZFRESH"
-    pre: len(v0) <= 2 and len(v1) <= 2 and len(notes) <= 2
+    pre: len(v0) <= L2 and len(v1) <= L2 and len(notes) <= L2
     post: _
     """
     # a0/a1: the property's value IS the note data object (CPython interns '' and one-character strings, so equal
@@ -102,7 +103,7 @@ def chart3(npos: int, nk: bool, k0: int, v0: str, v1: str, notes: str, a0: bool,
 
 def chart_multi(which: bool, v: str, npos: int, alias: bool) -> bool:
     """
-    pre: len(v) <= 3 and 0 <= npos <= 2
+    pre: len(v) <= L3 and 0 <= npos <= 2
     post: _
     """
     sf = SSCSimfile(string="")
@@ -122,7 +123,7 @@ def simfile_props(k0: int, v0: str, v1: str, n0: bool, ncharts: int, alias: bool
     """
     pre: 0 <= k0 < len(SSC_KEYS) and 0 <= ncharts <= 2
     pre: SSC_KEYS[k0] not in MULTI
-    pre: len(v0) <= 3 and len(v1) <= 3
+    pre: len(v0) <= L3 and len(v1) <= L3
     post: _
     """
     sf = SSCSimfile(string="")
@@ -139,7 +140,7 @@ def simfile_props(k0: int, v0: str, v1: str, n0: bool, ncharts: int, alias: bool
 
 def chart_from_str_path(npos: int, nk: bool, v0: str, notes: str, a0: bool) -> bool:
     """
-    pre: 0 <= npos <= 2 and len(v0) <= 2 and len(notes) <= 2
+    pre: 0 <= npos <= 2 and len(v0) <= L2 and len(notes) <= L2
     post: _
     """
     # stand-alone chart parsing (SSCChart.from_str goes through SSCChart._parse): it must stop exactly at the note data
